@@ -389,6 +389,24 @@ func init() {
 		return tFalse
 	}
 
+	// ---------- context.WithValue (the real one consults reflectlite for comparability) ----------
+	intrinsics["context.WithValue"] = func(m *Machine, fr *frame, a []Value) Value {
+		parent := a[0].(Iface)
+		if parent.T == nil {
+			panic(targetPanic{m.newErrorString(ConcStr("cannot create context from nil parent"))})
+		}
+		key := a[1].(Iface)
+		if key.T == nil {
+			panic(targetPanic{m.newErrorString(ConcStr("nil key"))})
+		}
+		if !types.Comparable(key.T) {
+			panic(targetPanic{m.newErrorString(ConcStr("key is not comparable"))})
+		}
+		t := m.lookupType("context", "valueCtx")
+		var cell Value = Struct{parent, key, a[2]}
+		return Iface{T: types.NewPointer(t), V: &cell}
+	}
+
 	// ---------- regexp: compiled natively, matched natively on concrete strings ----------
 	intrinsics["regexp.MustCompile"] = func(m *Machine, fr *frame, a []Value) Value {
 		var cell Value = &Native{Kind: "regexp", Data: regexp.MustCompile(m.argStr(a[0], "regexp pattern"))}
